@@ -1230,27 +1230,27 @@ pub fn run_case(c: &QCase, prop: &'static str, st: &mut Stats) -> Result<(), Str
             match prop {
                 "C01" => {
                     st.class_n("nontrivial_submissions", f.c01_nontrivial as u64);
-                    let mut first = true;
-                    for s in &e.c01_sigs {
-                        if first {
-                            st.nontrivial(*s, sample);
-                            first = false;
-                        } else {
-                            st.sigs.insert(*s);
+                    // one case = one history; it is non-trivial when it contains at least one
+                    // non-trivial submission, and distinct by the shapes of all of them
+                    if !e.c01_sigs.is_empty() {
+                        let mut hs = Sig::new();
+                        for s in &e.c01_sigs {
+                            hs.add(*s);
                         }
+                        st.nontrivial(hs.get(), sample);
                     }
                 }
                 "C02" => {
                     st.class_n("observation_points", e.points());
                     st.class_n("nontrivial_submissions", f.c02_nontrivial as u64);
-                    let mut first = true;
-                    for s in &e.c02_sigs {
-                        if first {
-                            st.nontrivial(*s, sample);
-                            first = false;
-                        } else {
-                            st.sigs.insert(*s);
+                    // one case = one history; it is non-trivial when it contains at least one
+                    // non-trivial submission, and distinct by the shapes of all of them
+                    if !e.c02_sigs.is_empty() {
+                        let mut hs = Sig::new();
+                        for s in &e.c02_sigs {
+                            hs.add(*s);
                         }
+                        st.nontrivial(hs.get(), sample);
                     }
                 }
                 "C03" => {
